@@ -54,9 +54,15 @@ func (s *spyStore) do(ctx context.Context, op, sid string, arg map[string]any, r
 	g := d.arrive("store", map[string]any{"op": op, "check": ctx.Value(checkKey{})})
 	if d.parallel && g.check == d.orphan {
 		// truly parallel flows attribute a store call by its context; a call made on a detached context (a write that must
-		// outlive the request) cannot be attributed and is not logged
-		_, err := run()
-		return err
+		// outlive the request) is attributed to the check in flight that presented this session id, and not logged if none did
+		d.mu.Lock()
+		owner := d.bySid[sid]
+		d.mu.Unlock()
+		if owner == nil {
+			_, err := run()
+			return err
+		}
+		g.check = owner
 	}
 	ev := map[string]any{"ev": "store", "n": g.check.n, "c": g.check.id, "f": g.check.f, "store": s.id, "op": op,
 		"sid": d.symSid(sid), "fault": "none", "arg": arg, "lin": 0, "cmdFaultHit": false}
